@@ -214,14 +214,33 @@ def run(ctx):
              bool(dl) and all(r == ('param', sr.id, req_param) and P.fpath(p) == ('context', ctx_dl) for r, p in dl),
              'deadline, id and body of the received request are passed on unchanged', [sr.loc(s)])
     # set_context(&request.context) before deriving from the span
-    sc = [(bb, t) for bb, t in sr.calls() if callee_is(t, 'SpanExt::set_context')]
-    tf = [(bb, t) for bb, t in sr.calls() if callee_is(t, 'TryFrom::try_from') and 'trace::Context' in (t.get('self_ty') or '')]
-    ok = len(sc) == 1 and len(tf) == 1 and cfg.dominates(sr, sc[0][0], tf[0][0])
+    from .common import deep_bodies
+    srb = deep_bodies(F, sr)
+    srb_ids = {x.id for x in srb}
+
+    def sites_reaching(pred_):
+        """(block in sr, innermost body, block, term): the call itself if it is in sr, or sr's call to the private helper that contains it"""
+        out_ = []
+        for g_ in srb:
+            for b_, t_ in g_.calls():
+                if not pred_(t_):
+                    continue
+                if g_.id == sr.id:
+                    out_.append((b_, g_, b_, t_))
+                else:
+                    for b2_, t2_ in sr.calls():
+                        h_ = F.callee_fn(t2_)
+                        if h_ is not None and any(x.id == g_.id for x in deep_bodies(F, h_)):
+                            out_.append((b2_, g_, b_, t_))
+        return out_
+    sc = sites_reaching(lambda t_: callee_is(t_, 'SpanExt::set_context'))
+    tf = sites_reaching(lambda t_: callee_is(t_, 'TryFrom::try_from') and 'trace::Context' in (t_.get('self_ty') or ''))
+    ok = len(sc) == 1 and len(tf) == 1 and cfg.dominates(sr, sc[0][0], tf[0][0]) and sc[0][0] != tf[0][0]
     if ok:
-        ar = P.root(P.operand(sr, sc[0][1]['args'][1], at=sc[0][0]))
+        ar = P.root(P.operand(sc[0][1], sc[0][3]['args'][1], at=sc[0][2]), through_params=True, callers=srb_ids)
         ok = bool(ar) and all(r == ('param', sr.id, req_param) and P.fpath(p) == ('context',) for r, p in ar)
     R.ob('C18.server', ('BaseChannel request registration', 'received context installed as the span\'s parent first'), ok,
-         'the server span is parented to the received context before its own context is read back', [sr.loc(t) for _, t in sc + tf] or [sr.loc(sr.d)])
+         'the server span is parented to the received context before its own context is read back', [g_.loc(t_) for _, g_, _, t_ in sc + tf] or [sr.loc(sr.d)])
     # set_context body: ids flow into the remote span context
     setc = F.trait_method('SpanExt', None, 'set_context') if False else None
     for im in F.trait_impls('SpanExt'):
@@ -230,13 +249,14 @@ def run(ctx):
                 setc = F.fns.get(mid)
     if setc is None:
         raise CannotDecide('SpanExt::set_context impl')
-    news = [(bb, t) for bb, t in setc.calls() if callee_is(t, 'SpanContext::new')]
+    setb = deep_bodies(F, setc)
+    news = [(g_, bb, t) for g_ in setb for bb, t in g_.calls() if callee_is(t, 'SpanContext::new')]
     ok = len(news) == 1
     if ok:
-        bb, t = news[0]
+        g_, bb, t = news[0]
         want = [f_trace, f_span, f_samp]
         for k, fld in enumerate(want):
-            rs = P.root(P.operand(setc, t['args'][k], at=bb))
+            rs = P.root(P.operand(g_, t['args'][k], at=bb), through_params=True, callers={x.id for x in setb})
             if not (rs and all(r[0] == 'param' and P.fpath(p)[-2:] == (ctx_tc, fld) for r, p in rs)):
                 ok = False
     R.ob('C18.server', ('SpanExt::set_context', 'remote parent built from the received ids'), ok,
